@@ -102,6 +102,8 @@ def _sca(depth: int, k: int) -> st.SearchStrategy[Any]:
     return st.one_of(leaf, dotnode(), dotnode(), mixednode(), st.builds(lambda a: ["norm", a], vec),
         # norm of a scaled vector: exercises the factor extraction |k| * norm(v)
         st.builds(lambda k, a: ["norm", ["scale", k, a]], sub, vec),
+        # norm of a sum whose terms share one scalar factor: |k| must come out, not k
+        st.builds(lambda k, a, b: ["norm", ["add", ["scale", k, a], ["scale", k, b]]], sub, vec, vec),
         st.builds(lambda a, b: ["mul", a, b], sub, sub), st.builds(lambda a, b: ["addS", a, b], sub, sub),
         st.builds(lambda a, b: ["addS", a, ["negS", b]], sub, sub), st.builds(lambda a: ["negS", a], sub),
         st.builds(lambda a, b: ["addS", ["negS", a], ["negS", b]], sub, sub),
